@@ -6,6 +6,10 @@ class Unsupported(Exception):
     """A MIR construct or callee without a model: machinery fault (exit 2), never a verdict."""
 
 
+class Inconclusive(Exception):
+    """The solver gave no answer within its budget: the scenario is reported as inconclusive."""
+
+
 class RustPanic(Exception):
     def __init__(self, msg):
         Exception.__init__(self, msg)
